@@ -114,8 +114,23 @@ def make_policy(spec, rec):
     return RecPeriodic(spec[1] * 1e-6)
 
 
+FOREIGN = 999999999
+
+
+def vtok(v):
+    """canonical transcript token of a value an implementation returned: `-` for None, the number for a plain
+    non-negative int below FOREIGN (every value a workload writes is one), and the reserved code FOREIGN for
+    anything else (an object nobody wrote, e.g. a copied tombstone sentinel, a wrapped / stringified value) — the
+    judge then sees a value that was never written and reports it under the property's own clauses"""
+    if v is None:
+        return "-"
+    if type(v) is int and 0 <= v < FOREIGN:
+        return str(v)
+    return str(FOREIGN)
+
+
 def cell(v, tomb):
-    return "-" if (v is None or v is tomb) else str(v)
+    return "-" if (v is None or v is tomb) else vtok(v)
 
 
 def run_lsm(case, crash_at=None):
@@ -163,9 +178,9 @@ def run_lsm(case, crash_at=None):
                 res = yield from traced(rec, opid, g, entry)
                 entry[2] = len(rec.sched) - 1
                 if op[0] == "get":
-                    entry[3] = "-" if res is None else str(res)
+                    entry[3] = vtok(res)
                 elif op[0] == "scan":
-                    entry[3] = ",".join(f"{keys.index(k)}={v}" for k, v in res) or "."
+                    entry[3] = ",".join(f"{keys.index(k)}={vtok(v)}" for k, v in res) or "."
                 else:
                     entry[3] = "ok"
 
@@ -237,9 +252,9 @@ def run_phases(case, on_crash):
                 res = yield from traced(rec, opid, g, entry)
                 entry[2] = len(rec.sched) - 1
                 if op[0] == "get":
-                    entry[3] = "-" if res is None else str(res)
+                    entry[3] = vtok(res)
                 elif op[0] == "scan":
-                    entry[3] = ",".join(f"{keys.index(k)}={v}" for k, v in res) or "."
+                    entry[3] = ",".join(f"{keys.index(k)}={vtok(v)}" for k, v in res) or "."
                 else:
                     entry[3] = "ok"
 
@@ -275,7 +290,7 @@ def final_lines(case, lsm):
     vals = []
     for k in keys:
         v = lsm.get_sync(k)
-        vals.append("-" if v is None else str(v))
+        vals.append(vtok(v))
     summ = {d["level"]: (d["sstables"], d["total_keys"]) for d in lsm.level_summary}
     lv = " ".join(f"{summ.get(i, (0, 0))[0]}:{summ.get(i, (0, 0))[1]}" for i in range(case["levels"]))
     return [f"final {' '.join(vals)}", f"levels {lv}"]
